@@ -10,3 +10,5 @@ open GrVerif.Props.C18
 #print axioms history_refines
 #print axioms lang_defaults_padded
 #print axioms lang_unknown_defaults
+#print axioms feat_table_total
+#print axioms sill_table_total
